@@ -66,7 +66,7 @@ variable {w : WTypes} {ρ : Nat → Res} {oi ow : List Nat} {c : Nat}
 theorem Inv.insertDefined {st : St} (h : Inv w ρ oi ow c st) (d : Nat) (v : ValueType)
     (hv : RV w ρ oi ow c st (.ty d) v) :
     Inv w ρ oi ow c (cacheInsert st (.any (.defined d)) (.type (.value v))) := by
-  refine ⟨h.hc, ?_, ?_, ?_, ?_, ?_, ?_, h.rm⟩
+  refine ⟨h.hc, ?_, ?_, ?_, ?_, ?_, ?_, h.rm, h.inj⟩
   · intro d' v' hl
     simp only [cacheInsert, lookup_cons] at hl
     split at hl
@@ -101,7 +101,7 @@ theorem Inv.insertDefined {st : St} (h : Inv w ρ oi ow c st) (d : Nat) (v : Val
 theorem Inv.insertFunc {st : St} (h : Inv w ρ oi ow c st) (f id : Nat)
     (hv : RF w ρ oi ow c st f id) :
     Inv w ρ oi ow c (cacheInsert st (.any (.func f)) (.type (.func id))) := by
-  refine ⟨h.hc, ?_, ?_, ?_, ?_, ?_, ?_, h.rm⟩
+  refine ⟨h.hc, ?_, ?_, ?_, ?_, ?_, ?_, h.rm, h.inj⟩
   · intro d' v' hl
     simp only [cacheInsert, lookup_cons] at hl
     split at hl
